@@ -376,7 +376,7 @@ def run_c18(tier, seed):
                 badset = _re.findall(r"bad = (\{.*?\})\n", r.out, _re.S)
                 verdict.violation("%s:%s" % (r.violated, json.dumps(lines[pos - 2], sort_keys=True)[:200] if pos >= 2 else sid),
                                   "%s violated by list request %s under configuration %s (%s)" % (r.violated, lines[pos - 2] if pos >= 2 else "?", cfgs.get(sid), badset[-1][:200] if badset else ""),
-                                  dict(kind="list", scenario=strip(sc[0]) if sc else None, cfg=cfgs.get(sid), request=lines[pos - 2] if pos >= 2 else None, invariant=r.violated))
+                                  dict(kind="list", scenario=sc[0] if sc else None, cfg=cfgs.get(sid), popnames=popnames, request=lines[pos - 2] if pos >= 2 else None, invariant=r.violated))
             else:
                 raise Inconclusive("ListTrace validation failed: %s %s" % (r.violated, r.error))
         rc = verdict.finish()
@@ -398,7 +398,51 @@ def replay(prop, path):
     return _replay(prop, path)
 
 
+def project_lists(evs, cfgs, opmeta, popnames, lines):
+    """C18 projection of permdrv events to the ListTrace alphabet (same code as in run_c18's loop, for replays)."""
+    cur, pop = None, None
+    for e in evs:
+        if e["ev"] == "Begin":
+            cur = e["sc"]
+            pop = {w: list(a) for w, a in popnames.items()}
+            lines.append(dict(ev="Config", sc=cur, cfg=cfgs[cur]))
+            lines.append(dict(ev="Population", pop={w: list(a) for w, a in pop.items()}))
+        elif e["ev"] == "PermOp" and e["kind"] == "create":
+            if e["served"]:
+                pop[e["wallet"]] = pop[e["wallet"]] + [e["acct"]]
+                lines.append(dict(ev="Population", pop={w: list(a) for w, a in pop.items()}))
+        elif e["ev"] == "PermOp" and e["kind"] == "listpaths":
+            m = opmeta[cur][e["id"]]
+            res = []
+            for nm in e["listed"]:
+                w, _, a = nm.partition("/")
+                res.append(dict(w=w, a=a))
+            lines.append(dict(ev="List", id=e["id"], client=e["client"], paths=m["pids"], result=res, keysok=bool(e["served"]) or not e["listed"]))
+
+
+def project_service(evs, cfgs, lines):
+    """C07 projection of permdrv events to the PermTrace alphabet (for replays; run() has the same loop with counters)."""
+    cur = None
+    for e in evs:
+        if e["ev"] == "Begin":
+            cur = e["sc"]
+            lines.append(dict(ev="Config", sc=cur, cfg=cfgs[cur]))
+        elif e["ev"] == "PermOp" and e["kind"] in OPNAME:
+            wallet, acct = e["wallet"], e["acct"]
+            if e["keyof"]:
+                if e["served"] and e["kind"] == "gen":
+                    if not e["servedfor"]:
+                        raise Inconclusive("a served signature verifies for neither candidate account (%s)" % e)
+                    wallet, acct = e["servedfor"].split("/")
+                else:
+                    wallet, acct = e["keyof"].split("/")
+            if e["kind"] in ("lockwallet", "unlockwallet"):
+                acct = ""
+            lines.append(dict(ev="Op", id=e["id"], client=e["client"], wallet=wallet, account=acct, op=OPNAME[e["kind"]], served=bool(e["served"]), changed=bool(e["changed"])))
+
+
 def _replay(prop, path):
+    """Re-run the case / scenario of a replay file on the current tree and have TLC judge the recorded run again."""
     obj = json.load(open(path))["replay"]
     wd = workdir(prop + "-replay")
     try:
@@ -410,13 +454,34 @@ def _replay(prop, path):
                 print("VIOLATION property=C07 replay=%s" % path)
                 return 1
             return 0
-        evs, rc, err = run_permdrv(dict(check_cases=[], scenarios=[obj["scenario"]]), wd, "replay")
-        for e in evs:
-            if e.get("id") == obj["op"]["id"]:
-                print(json.dumps(e))
-                if e["served"] == obj["op"]["served"] and e["changed"] == obj["op"]["changed"]:
-                    print("VIOLATION property=C07 replay=%s" % path)
-                    return 1
-        return 0
+        sc = obj["scenario"]
+        strip = lambda sc_: dict(sc_, ops=[{k: v for k, v in o.items() if k != "pids"} for o in sc_["ops"]])
+        evs, rc, err = run_permdrv(dict(check_cases=[], scenarios=[strip(sc)]), wd, "replay")
+        if rc != 0:
+            print(err[-400:])
+            return 2
+        lines = []
+        if obj["kind"] == "list":
+            project_lists(evs, {sc["id"]: obj["cfg"]}, {sc["id"]: {o["id"]: o for o in sc["ops"]}}, obj["popnames"], lines)
+            module, inv = "ListTrace", ["NoForbidden", "Complete", "OwnKey"]
+        else:
+            project_service(evs, {sc["id"]: obj["cfg"]}, lines)
+            module, inv = "PermTrace", ["ServedOnlyIfAllowed", "RefusedNoChange"]
+        for ln in lines[:300]:
+            print(json.dumps(ln)[:300])
+        rundir = os.path.join(wd, module)
+        os.makedirs(rundir, exist_ok=True)
+        with open(os.path.join(rundir, "trace.ndjson"), "w") as fh:
+            for ln in lines:
+                fh.write(json.dumps(ln) + "\n")
+        r = tlc(module, make_cfg(dict(TraceFile="trace.ndjson"), invariants=inv, constraint="HighWater", postcondition="Accepted"), wd, name=module, workers=1, timeout=900, dump_trace=False)
+        if r.ok:
+            print("replay: run accepted by %s (%s hold)" % (module, ", ".join(inv)))
+            return 0
+        if r.violated in inv:
+            print("VIOLATION property=%s replay=%s" % (prop, path))
+            return 1
+        print("replay: %s %s" % (r.violated, r.error))
+        return 2
     finally:
         cleanup(wd)
